@@ -33,35 +33,40 @@ RULE = ("library client <-> library server (Twisted and asyncio adapters, NVX an
         "1-40 tagged messages per connection in both directions; lengths on the 0/125/126/65535/65536/2^17 "
         "length-encoding borders and random; per message one of: sendMessage (plain, fragmentSize in "
         "{1,2,3,125,126,n-1,n,n+1,..}, sync, doNotCompress), autoFragmentSize, streaming API with arbitrary "
-        "chunking (incl. over-long chunks), frame API, prepared messages, sendFrame with write chopping; options: "
-        "mask flags of both roles, applyMask, utf8validateIncoming, permessage-deflate (default / no context "
-        "takeover / reduced windows); byte streams cut whole / bytewise / 1-4 octets / random / at every frame "
-        "border +-1, the two directions and the 10us queued-write timers interleaved by a seeded scheduler; first "
-        "frames glued to the opening handshake; every single cut position (thorough: every pair) of short streams. "
+        "chunking (incl. over-long and empty chunks, zero-length frames), frame API, prepared messages, sendFrame "
+        "with write chopping / payload_len repetition; options: mask flags of both roles, applyMask, "
+        "utf8validateIncoming, permessage-deflate (default / no context takeover / reduced windows / mem levels); "
+        "byte streams cut whole / bytewise / 1-4 octets / random / at every frame border +-1, the two directions "
+        "and the 10us queued-write timers interleaved by a seeded scheduler; first frames glued to the opening "
+        "handshake (both directions); every single cut position (thorough: every pair) of short streams. "
         "A case is non-trivial when at least one message was compared on the wire AND at the receiver; distinct = "
-        "hash of (kind, options, per-message API/length-class plan, segmentation policies, cut).")
+        "hash of (kind, options, per-message API/length-class plan, segmentation policies, cut). Violation keys = "
+        "direction / clause / API + the features that select the code path (pmce, applyoff, xmask, zero-frames).")
 ASSUMPTIONS = [
-    "reference = vf/rfc6455_ref.py (frame grammar, sender rules) + zlib raw inflate per RFC 7692 7.2.2; the fast parser in vf/c01_wire.py is cross-checked against it at worker start",
+    "reference = vf/rfc6455_ref.py (frame grammar, sender rules) + zlib raw inflate per RFC 7692 7.2.2 with the window / context-takeover parameters read from the server's 101 response; the fast parser in vf/c01_wire.py is cross-checked against it at worker start",
     "only option combinations the library documents as interoperable are paired (a masked-frames-requiring server is never paired with a non-masking client, applyMask is switched on both ends together)",
-    "the mask bit is judged against the configured options (maskClientFrames / maskServerFrames are documented deviations from the RFC); prepared messages are judged by role because prepareMessage() documents role-based masking",
-    "streaming API: pings are only delivered to a side that is not inside a half-written frame (an automatic pong inside an application-streamed frame is an inherent hazard of that API, not asserted)",
+    "documented option semantics are modelled, not flagged: the mask bit is judged against maskClientFrames / maskServerFrames; with applyMask=False the payload is compared as written (mask key present, octets not XORed); prepared messages are judged by role because PreparedMessage documents role-based masking",
+    "sendFrame() is driven only with what a conforming caller passes (message opcode on the first frame, 0 on the others, FIN on the last, no RSV bits, optional payload_len repetition, chopsize, sync and - in a few cases - an explicit 4-octet mask key); it is the only route to write chopping",
+    "streaming API grey zones that are NOT asserted: (a) a zero-length frame is completed the way sendMessageFrame(b'') does it, by an empty sendMessageFrameData() - beginMessageFrame(0) immediately followed by another beginMessageFrame() raises 'invalid in current sending state', the docstring only says the frame ends 'when enough data has been sent'; (b) the sign of sendMessageFrameData's return value for an over-long chunk (docstring: 'amount of unconsumed data', code: negative) - both accepted; (c) pings are only delivered to a side that is not inside a half-written streamed frame (an automatic pong there is an inherent hazard of that API)",
     "whether a message is compressed at all is the sender's choice (RFC 7692): only 'RSV1 => inflates to what was sent' and 'RSV1 only with a negotiated extension' are asserted",
     "the early-data sub-scenario (frames in the same segment as the client's opening request) drives the server-side hand-over with a reference-built client stream; a conforming client never does this, the library documents 'process rest, if any'",
-    "after a sender-side fault the peer's reaction to the malformed stream is not judged here (C02's subject); such cases report the sender fault only",
+    "per direction only the EARLIEST sender problem is reported (everything after a broken frame is misread); after a sender-side fault the peer's reaction to the malformed stream is not judged here (C02's subject) and a stream that merely STOPS (trailing octets, unfinished / missing message) on a connection the peer has failed is a consequence, not a second finding",
+    "API/option mixes that are listed in known_findings/C01.json are confined to a 6 % slice of the cases (cfg.kf) so that they cannot mask other faults in the rest of the workload",
 ]
 DECIDING = {
     "messages_compared": 500, "wire_messages_compared": 500, "frames_parsed": 1000,
-    "fw_tx": 1, "fw_aio": 1, "sender_client": 1, "sender_server": 1,
+    "fw_tx": 1, "fw_aio": 1, "sender_client": 1, "sender_server": 1, "nvx_workers": 1, "pure_workers": 1,
     "wire_len7": 1, "wire_len16": 1, "wire_len64": 1,
     "fragmented_messages": 1, "pmce_messages": 1, "queued_writes_fired": 1,
     "api_msg": 1, "api_msg-frag": 1, "api_msg-sync": 1, "api_msg-dnc": 1, "api_autofrag": 1, "api_stream": 1,
-    "api_frames": 1, "api_prepared": 1, "api_sendframe": 1,
+    "api_frames": 1, "api_prepared": 1, "api_sendframe": 1, "stream_returns_checked": 1,
     "glue_cases": 1, "cut_positions": 1, "early_data_cases": 1, "pings_compared": 1,
 }
 
 BORDER_LENGTHS = [0, 1, 2, 3, 124, 125, 126, 127, 128, 129, 65534, 65535, 65536, 65537, 131071, 131072, 131073]
 THOROUGH_LENGTHS = [(1 << 20) - 1, (1 << 20) + 1, (1 << 22)]
 APIS = ["msg", "msg-frag", "msg-sync", "msg-dnc", "stream", "frames", "prepared", "sendframe"]
+COMPRESSING_APIS = ("msg", "msg-frag", "msg-sync", "autofrag", "stream", "frames", "prepared")
 MASK_VARIANTS = {
     #             maskClient requireMasked maskServer acceptMasked applyMask
     "std":        (True, True, False, False, True),
@@ -79,9 +84,53 @@ SEG_POLICIES = ["whole", "bytewise", "small", "random", "edges", "bursty"]
 # shards
 # ================================================================================================
 
+def _private_nvx_dir():
+    """vf.build_nvx keeps only the 10 most recent ``nvx-ship-*`` build directories; while many self-test runs of
+    other checks build concurrently, the (old) build of /repo is evicted under running workers, which then
+    CANNOT-RUN.  This check therefore works from a private copy keyed by the CONTENT of the NVX sources
+    (scratch copies with untouched C sources share it), which that clean-up does not match."""
+    import hashlib
+    import os
+    import shutil
+    from vf import bootstrap
+
+    hh = hashlib.sha256()
+    d = os.path.join(bootstrap.REPO_SRC, "autobahn", "nvx")
+    for n in ("_utf8validator.c", "_utf8validator.py", "_xormasker.c", "_xormasker.py", "_compile_args.py"):
+        with open(os.path.join(d, n), "rb") as f:
+            hh.update(f.read())
+    priv = os.path.join(bootstrap.VERIF_ROOT, ".build", "c01-nvx-ship-%s" % hh.hexdigest()[:16])
+    if os.path.exists(os.path.join(priv, "BUILD_OK")):
+        return priv
+    last = None
+    for _ in range(5):
+        src = build_nvx.build("ship")
+        tmp = "%s.tmp%d" % (priv, os.getpid())
+        shutil.rmtree(tmp, ignore_errors=True)
+        try:
+            shutil.copytree(src, tmp)
+            if not os.path.exists(os.path.join(tmp, "BUILD_OK")):
+                raise OSError("build directory vanished while copying")
+            try:
+                os.rename(tmp, priv)
+            except OSError:
+                if not os.path.exists(os.path.join(priv, "BUILD_OK")):
+                    raise
+            return priv
+        except OSError as e:        # evicted between build() and the copy: build again
+            last = e
+        finally:
+            shutil.rmtree(tmp, ignore_errors=True)
+    raise RuntimeError("cannot obtain a private NVX build: %r" % last)
+
+
+def _nvx_env():
+    return {"VERIF_NVX_DIR": _private_nvx_dir(), "AUTOBAHN_USE_NVX": "1"}
+
+
 def prepare(tier):
     try:
-        build_nvx.build("ship")
+        _private_nvx_dir()
     except Exception as e:
         print("CANNOT-BUILD: %s" % e)
         return False
@@ -89,33 +138,40 @@ def prepare(tier):
 
 
 def shards(tier, seed):
+    """quick: 7 NVX shards per framework + one pure-Python shard per framework = 16 processes, ~45 s each;
+    thorough: 4 NVX + 4 pure-Python shards per framework = 16 processes, ~5-6 min of CPU each."""
     out = []
-    nvx_env = build_nvx.worker_env("ship")
+    nvx_env = _nvx_env()
     pure_env = {"AUTOBAHN_USE_NVX": "0"}
     if tier == "quick":
-        per_fw, budget = 8, 1.0
+        per_fw = 7
         envs = [("nvx", nvx_env)]
     else:
-        per_fw, budget = 6, 9.0
+        per_fw = 4
         envs = [("nvx", nvx_env), ("pure", pure_env)]
     for ename, env in envs:
         for fw in ("tx", "aio"):
             for i in range(per_fw):
-                out.append({"name": "%s-%s-%d" % (fw, ename, i), "fw": fw, "env": env, "timeout": 1500,
+                out.append({"name": "%s-%s-%d" % (fw, ename, i), "fw": fw, "env": env, "timeout": 2400,
                             "params": {"tier": tier, "seed": seed, "part": i, "parts": per_fw, "fw": fw,
-                                       "nvx": ename == "nvx", "budget": budget}})
+                                       "nvx": ename == "nvx"}})
     if tier == "quick":
-        # one small pure-Python pass per framework in the quick tier too (selection happens at import time)
+        # one pure-Python pass per framework in the quick tier too (masker/validator selection happens at import time)
         for fw in ("tx", "aio"):
-            out.append({"name": "%s-pure-q" % fw, "fw": fw, "env": pure_env, "timeout": 900,
+            out.append({"name": "%s-pure-q" % fw, "fw": fw, "env": pure_env, "timeout": 1200,
                         "params": {"tier": tier, "seed": seed, "part": 0, "parts": 1, "fw": fw, "nvx": False,
-                                   "budget": 0.35, "mini": True}})
+                                   "mini": True}})
     return out
 
 
 # ================================================================================================
 # case derivation (everything follows from the case dict; replay == run_case(case))
 # ================================================================================================
+
+def xmask_key(j):
+    """The explicit mask key handed to sendFrame(mask=..) for the j-th frame of a message."""
+    return bytes([0x41 + j, 0x62, 0x63, 0x64])
+
 
 def _pick_len(rng, tier, big_ok=True):
     r = rng.random()
@@ -328,23 +384,22 @@ class Side:
         return self.dead is None and (bool(self.steps) or self.next_plan < len(self.plans))
 
     # -- sending -----------------------------------------------------------------------------
-    def _qual(self, p, onopen):
-        cfg = self.run.cfg
+    def _features(self, p):
+        """Mechanism-relevant features of one send (part of the violation key).  Configuration that does not
+        change which code path writes the octets (which non-default mask variant, onOpen, UTF-8 validation,
+        segmentation ...) is NOT part of the key; it is in the violation detail."""
         toks = []
-        if self.run.pmce_on:
-            compresses = p["api"] in ("msg", "msg-frag", "msg-sync", "autofrag", "stream", "frames", "prepared")
-            toks.append("pmce-compress" if (compresses and not p.get("dnc")) else "pmce-dnc")
-        else:
-            toks.append("nopmce")
-        if cfg["mask"] != "std":
-            toks.append(cfg["mask"])
+        api = p["api"]
+        if self.run.pmce_on and api in COMPRESSING_APIS and not p.get("dnc"):
+            toks.append("pmce")              # this message takes the compressing path
+        masked = (self.role == "client") if (api == "prepared" and "pmce" not in toks) else (self.mask_opt() or bool(p.get("xmask")))
+        if masked and not self.apply_mask():
+            toks.append("applyoff")          # frames carry a mask key that is documented NOT to be applied
         if p.get("xmask"):
-            toks.append("xmask")
-        if p["api"] == "stream" and not p.get("frames"):
-            toks.append("zero-frames")
-        if onopen:
-            toks.append("onopen")
-        return "+".join(toks)
+            toks.append("xmask")             # sendFrame(mask=<explicit key>)
+        if api == "stream" and not p.get("frames"):
+            toks.append("zero-frames")       # beginMessage(); endMessage()
+        return "+".join([api] + toks)
 
     def _load_next(self, onopen=False):
         run = self.run
@@ -364,10 +419,11 @@ class Side:
             unit = None
             payload = cw.make_payload(run.seed, self.direction, p["idx"], n, p["binary"], p["fill"])
         rec = {"idx": p["idx"], "tag": cw.tag_of(payload), "binary": p["binary"], "sha": cw.sha(payload), "len": n,
-               "api": api, "qual": self._qual(p, onopen), "payload": payload, "plan": p, "onopen": onopen,
-               "xmask": bool(p.get("xmask")), "done": False}
+               "api": api, "payload": payload, "plan": p, "onopen": onopen,
+               "xmask": bool(p.get("xmask")), "done": False, "ret_bad": None}
         if api == "msg" and run.cfg["autofrag"][self.role]:
             rec["api"] = "autofrag"
+        rec["feat"] = self._features(dict(p, api=rec["api"]))
         pr = self.proto
         st = self.steps
         rng = run.rng_api
@@ -423,7 +479,6 @@ class Side:
                     self.in_frame = sz > 0
                 st.append(("bframe", begin_frame))
                 left = sz
-                pos_sim = None
                 chunks = []
                 while left > 0:
                     c = rng.randint(1, p["chunk_max"])
@@ -433,11 +488,16 @@ class Side:
                         chunks.append(0)
                     chunks.append(c)
                     left -= min(c, left)
+                if sz == 0:
+                    # "the frame is automatically ended when enough data has been sent": a zero-length frame is
+                    # ended the way sendMessageFrame(b"") ends it, by an empty sendMessageFrameData (ASSUMPTIONS)
+                    chunks.append(0)
                 for c in chunks:
                     def data(c=c):
                         pos = state["pos"]
                         chunk = payload[pos:pos + c]     # may reach beyond this frame (over-long chunk)
                         want_rest = state["left"] - len(chunk)
+                        was_open = pr.state == pr.STATE_OPEN
                         got = pr.sendMessageFrameData(chunk, sync=bool(p.get("sync")))
                         used = min(len(chunk), state["left"])
                         state["pos"] = pos + used
@@ -445,9 +505,14 @@ class Side:
                         if state["left"] == 0:
                             self.in_frame = False
                         run.R.count("stream_chunks")
-                        if got != want_rest:
-                            run.violation(self.direction, "sender/stream-rest-return", rec,
-                                          "sendMessageFrameData returned %r, frame arithmetic gives %r" % (got, want_rest))
+                        # documented return: octets remaining (>0), 0 when complete, "amount of unconsumed data"
+                        # otherwise (the code comment says negative, the docstring gives no sign: both accepted).
+                        # A connection the PEER has failed meanwhile returns None: not this call's fault.
+                        if was_open and rec["ret_bad"] is None:
+                            run.R.count("stream_returns_checked")
+                            ok = (got == want_rest) if want_rest >= 0 else (got in (want_rest, -want_rest))
+                            if not ok or type(got) is not int:
+                                rec["ret_bad"] = "sendMessageFrameData returned %r, frame arithmetic gives %r" % (got, want_rest)
                     st.append(("data", data))
             st.append(("end", lambda: (pr.endMessage(), rec.__setitem__("done", True))))
         elif api == "sendframe":
@@ -467,7 +532,7 @@ class Side:
                     kw["payload"] = payload[pos:pos + sz]
                 pos += sz
                 if p.get("xmask"):
-                    kw["mask"] = bytes([0x41 + k, 0x62, 0x63, 0x64])
+                    kw["mask"] = xmask_key(k)
 
                 def go(kw=kw, first=(k == 0), last=last):
                     if first:
@@ -497,10 +562,12 @@ class Side:
         kind, fn = self.steps.popleft()
         try:
             fn()
-        except Exception as e:           # a send API raising on valid use
+        except Exception as e:           # a send API raising
             self.dead = e
             self.steps.clear()
-            self.run.send_raised.append((self, kind, e))
+            # on a connection the peer has failed meanwhile sendMessage() documents Disconnected: a consequence
+            lost = self.proto.state != self.proto.STATE_OPEN
+            self.run.send_raised.append((self, kind, e, lost, self.sent[-1] if self.sent else None))
             return None
         if self.run.cfg["pings"] and not onopen and kind in ("frame",) and self.steps and self.run.rng_sched.random() < 0.2:
             self.ping()
@@ -519,7 +586,7 @@ class Side:
             self.pings.append(pl)
         except Exception as e:
             self.dead = e
-            self.run.send_raised.append((self, "ping", e))
+            self.run.send_raised.append((self, "ping", e, self.proto.state != self.proto.STATE_OPEN, None))
 
 
 # ================================================================================================
@@ -540,9 +607,7 @@ class CaseRun:
         self.sender_fault = {"c2s": None, "s2c": None}
 
     def violation(self, direction, clause, rec, what, detail=None):
-        api = rec["api"] if rec else "-"
-        qual = rec["qual"] if rec else "-"
-        key = "C01/%s/%s/%s/%s" % (direction, clause, api, qual)
+        key = "C01/%s/%s/%s" % (direction, clause, rec["feat"] if rec else "-")
         self.viol.append((key, what, detail or {}, direction, clause))
 
     # -- set-up --------------------------------------------------------------------------------
@@ -819,14 +884,26 @@ class CaseRun:
         if bool(pm) != bool(cfg["pmce"]):
             self.violation("s2c", "sender/pmce-negotiation", None,
                            "extension offered/accepted=%r but 101 response says %r" % (cfg["pmce"], pm))
+        # Each direction yields its EARLIEST problem.  "Soft" problems (the stream simply stops: trailing octets,
+        # unfinished / missing message, missing pings) are what a sender looks like whose connection the peer has
+        # failed - they are reported only when the connection is still open (nobody cut the stream) or when no
+        # other explanation exists (see the liveness clause below).
+        found = {}
         for side in self.sides:
-            self._judge_sender(side, pm)
-        # a send API that raised
+            found[side.direction] = self._judge_sender(side, pm)
+        lost = {sd.direction: (not is_open(sd.ep) or bool(sd.ep.close_requested) or bool(sd.ep.lost)) for sd in self.sides}
+        for side in self.sides:
+            d = side.direction
+            c = found[d]
+            if c is None:
+                continue
+            pos, _, clause, rec, what, detail, soft = c
+            if soft and lost[d]:
+                R.count("soft_problems_on_lost_connections")
+                continue
+            self.violation(d, clause, rec, what, detail)
+            self.sender_fault[d] = clause
         any_fault = any(self.sender_fault.values())
-        for side, kind, e in self.send_raised:
-            if not any_fault:
-                rec = side.sent[-1] if side.sent else None
-                self.violation(side.direction, "send-raised/%s" % type(e).__name__, rec, "%s step raised %r" % (kind, e))
         # ---------- receiver side ----------
         for side in self.sides:
             d = side.direction
@@ -853,29 +930,30 @@ class CaseRun:
                 self.violation("c2s" if name == "server" else ("s2c" if name == "client" else "-"),
                                "escaped/%s/%s" % (e.where.split(":")[0], type(e.exc).__name__), None,
                                "exception reached the framework at %s: %r" % (name, e))
-            for side in self.sides:
-                if not is_open(side.ep) or side.ep.close_requested or side.ep.lost:
-                    reason = getattr(side.ep.proto, "wasNotCleanReason", None)
-                    closes = [e[2:] for e in app_events(side.ep, ("onClose",))]
-                    self.violation("s2c" if side.role == "client" else "c2s", "not-open-at-end/%s" % side.role, None,
-                                   "%s left OPEN during valid traffic (state=%r close_requested=%r reason=%r onClose=%r)" % (
-                                       side.role, side.ep.proto.state, side.ep.close_requested, reason, closes))
+            down = [sd for sd in self.sides if lost[sd.direction]]
+            # the endpoint that gave up first (it asked its transport to close) is the one to blame
+            down.sort(key=lambda sd: 0 if sd.ep.close_requested else 1)
+            for side in down[:1]:
+                reason = getattr(side.ep.proto, "wasNotCleanReason", None)
+                closes = [e[2:] for e in app_events(side.ep, ("onClose",))]
+                self.violation("s2c" if side.role == "client" else "c2s", "not-open-at-end/%s" % side.role, None,
+                               "%s left OPEN during valid traffic (state=%r close_requested=%r reason=%r onClose=%r)" % (
+                                   side.role, side.ep.proto.state, side.ep.close_requested, reason, closes))
 
     def _judge_sender(self, side, pm):
         """Everything ``side`` wrote after its handshake part.  Once a stream is broken every later octet is
-        misread, so only the EARLIEST problem of a direction is reported (position = frame index)."""
+        misread, so only the EARLIEST problem of a direction is returned (position = frame index):
+        (pos, order, clause, rec, what, detail, soft) or None."""
         R = self.R
         d = side.direction
-        cands = []          # (position, clause, rec, what, detail)
+        cands = []
 
-        def cand(pos, clause, rec, what, detail=None):
-            cands.append((pos, len(cands), clause, rec, what, detail))
+        def cand(pos, clause, rec, what, detail=None, soft=False):
+            cands.append((pos, len(cands), clause, rec, what, detail, soft))
 
         sp = cw.split_head(bytes(side.ep.all_out))
         if sp is None:
-            self.violation(d, "sender/no-handshake-head", None, "no CRLFCRLF in sender output")
-            self.sender_fault[d] = "no-head"
-            return
+            return (0, 0, "sender/no-handshake-head", None, "no CRLFCRLF in sender output", None, False)
         frames, tail = cw.parse_frames(sp[1])
         R.count("frames_parsed", len(frames))
         R.count("sender_" + side.role)
@@ -884,34 +962,61 @@ class CaseRun:
         msgs, frame_msg, open_tail = cw.assemble(frames)
         sent = side.sent
         nfr = len(frames)
+        # message index a frame belongs to: frames the continuation discipline cannot attribute (and control
+        # frames) are charged to the message that was being / about to be written at that point
+        owner, done_before = [], 0
+        for k, f in enumerate(frames):
+            mi = frame_msg[k]
+            owner.append(mi if mi is not None else done_before)
+            if mi is not None and f.opcode not in ref.CONTROL_OPS and f.fin and f.opcode in (0, 1, 2):
+                done_before = mi + 1
 
-        def rec_of_frame(k):
-            mi = frame_msg[k] if k is not None and k < len(frame_msg) else None
-            return sent[mi] if mi is not None and mi < len(sent) else None
+        def rec_of_msg(mi):
+            return sent[mi] if mi is not None and 0 <= mi < len(sent) else None
+
+        def rec_of_frame(k, data_only=False):
+            if k is None or k >= nfr:
+                return rec_of_msg(len(msgs))
+            if data_only and frames[k].opcode in ref.CONTROL_OPS:
+                return None
+            return rec_of_msg(owner[k])
 
         for clause, k, text in problems:
             if clause.startswith("mask-bit-"):
                 continue            # judged per frame below (prepared messages mask by role)
-            clause = "".join(ch for ch in clause if not ch.isdigit()).rstrip("-")
-            cand(k, "sender/" + clause, rec_of_frame(k), "frame %d: %s" % (k, text))
+            if clause.startswith("close-code-invalid-"):
+                clause = "close-code-invalid"       # the code itself is a value, not a mechanism
+            is_ctl = k is not None and k < nfr and frames[k].opcode in ref.CONTROL_OPS
+            cand(k, "sender/" + clause, None if is_ctl else rec_of_frame(k), "frame %d: %s" % (k, text))
+        nth_in_msg = {}
         for k, f in enumerate(frames):
-            rec = rec_of_frame(k)
+            rec = rec_of_frame(k, data_only=True)
             want = side.mask_opt()
-            if rec is not None and f.opcode not in ref.CONTROL_OPS:
+            if rec is not None:
+                j = nth_in_msg.get(owner[k], 0)
+                nth_in_msg[owner[k]] = j + 1
                 if rec["api"] == "prepared" and not (pm and not rec["plan"].get("dnc")):
                     want = side.role == "client"
                 elif rec["api"] == "sendframe":
                     want = rec.get("expect_masked", want)
+                    if rec["xmask"] and f.masked and f.mask != xmask_key(j):
+                        cand(k, "sender/explicit-mask-key", rec,
+                             "frame %d %r: sendFrame(mask=%s) wrote mask key %s" % (k, f, xmask_key(j).hex(), f.mask.hex()))
             if bool(f.masked) != bool(want):
                 cand(k, "sender/mask-bit-%s" % ("set" if f.masked else "clear"), rec,
                      "frame %d %r: mask bit %d, options/role demand %d" % (k, f, f.masked, want))
             R.count("wire_len%d" % f.length_form)
         if tail:
-            cand(nfr, "sender/trailing-octets", sent[len(msgs)] if len(msgs) < len(sent) else (sent[-1] if sent else None),
-                 "%d octets after the last complete frame do not form a frame: %s" % (len(tail), tail[:24].hex()))
+            rec = rec_of_msg(len(msgs)) or (sent[-1] if sent else None)
+            sc = cw.scan_frame(tail, 0)
+            if rec is not None and rec["xmask"] and tail[1:2] and tail[1] & 0x80 and (
+                    sc is None or sc[2][4] not in [xmask_key(j) for j in range(8)]):
+                cand(nfr, "sender/explicit-mask-key", rec, "last frame has the mask bit but the key sendFrame() was given "
+                     "is not on the wire: %s" % tail[:16].hex())
+            cand(nfr, "sender/trailing-octets", rec,
+                 "%d octets after the last complete frame do not form a frame: %s" % (len(tail), tail[:24].hex()), soft=True)
         if open_tail:
-            cand(nfr, "sender/unfinished-message", sent[len(msgs)] if len(msgs) < len(sent) else None,
-                 "stream ends inside a fragmented message")
+            cand(nfr, "sender/unfinished-message", rec_of_msg(len(msgs)), "stream ends inside a fragmented message", soft=True)
         # content: wire messages vs send log
         inflater = None
         if pm:
@@ -937,41 +1042,54 @@ class CaseRun:
                 try:
                     wire = inflater.inflate(wire)
                 except zlib.error as e:
-                    cand(m.first_frame, "sender/inflate-error", rec, "RSV1 message #%d does not inflate: %s" % (i, e),
-                         {"wire": m.payload[:64].hex()})
+                    cand(m.first_frame, "sender/payload", rec, "RSV1 message #%d does not inflate with the negotiated "
+                         "parameters %r: %s" % (i, pm, e), {"wire": m.payload[:64].hex()})
                     broke = True
                     break
             R.count("wire_messages_compared")
             if (m.opcode == 2) != rec["binary"]:
-                cand(m.first_frame, "sender/wire-type-mismatch", rec, "message #%d sent as %s, opcode on the wire %d" % (
+                cand(m.first_frame, "sender/wire-type", rec, "message #%d sent as %s, opcode on the wire %d" % (
                     i, "binary" if rec["binary"] else "text", m.opcode))
             if len(wire) != rec["len"] or cw.sha(wire) != rec["sha"]:
-                cand(m.first_frame, "sender/wire-content-mismatch", rec,
+                cand(m.first_frame, "sender/payload", rec,
                      "message #%d: application sent %d octets (sha %s), wire carries %d octets (sha %s)" % (
                          i, rec["len"], rec["sha"], len(wire), cw.sha(wire)),
                      {"sent_head": rec["payload"][:48].hex(), "wire_head": wire[:48].hex(),
                       "frames": m.frames, "lens": m.lens[:12]})
+            if rec["ret_bad"]:
+                cand(m.first_frame, "sender/stream-return", rec, rec["ret_bad"])
+        # a send API that raised on an open connection: that message is (at best) incomplete on the wire
+        for sd, kind, e, conn_lost, rec in self.send_raised:
+            if sd is side and not conn_lost:
+                cand(nfr - 0.5, "sender/send-raised-%s" % type(e).__name__, rec, "%s step raised %r on an OPEN connection" % (kind, e))
         if not broke and len(msgs) < len(sent) and side.dead is None:
             cand(nfr, "sender/wire-missing-message", sent[len(msgs)],
-                 "application sent %d messages, %d complete messages on the wire" % (len(sent), len(msgs)))
+                 "application sent %d messages, %d complete messages on the wire" % (len(sent), len(msgs)), soft=True)
         # control frames this side wrote (payload as the peer will read it)
         ctl = [(f.opcode, f.payload if side.apply_mask() else f.raw_payload, k) for k, f in enumerate(frames)
                if f.opcode in ref.CONTROL_OPS]
         wire_pings = [p for (op, p, k) in ctl if op == ref.OP_PING]
         if wire_pings != side.pings:
-            k = next((k for (op, p, k) in ctl if op == ref.OP_PING), nfr)
-            cand(nfr if len(wire_pings) <= len(side.pings) else k, "sender/ping-mismatch", None,
-                 "pings sent %d, on the wire %d (or different payloads)" % (len(side.pings), len(wire_pings)))
+            if wire_pings == side.pings[:len(wire_pings)]:
+                cand(nfr, "sender/ping-missing", None, "pings sent %d, on the wire %d" % (len(side.pings), len(wire_pings)), soft=True)
+            else:
+                k = nfr
+                for i, (pl, kk) in enumerate([(pl, kk) for (op, pl, kk) in ctl if op == ref.OP_PING]):
+                    if i >= len(side.pings) or side.pings[i] != pl:
+                        k = kk
+                        break
+                cand(k, "sender/ping-mismatch", None, "pings sent %d, on the wire %d, first difference at frame %d" % (
+                    len(side.pings), len(wire_pings), k))
         R.count("pings_compared", len(wire_pings))
         for (op, p, k) in ctl:
             if op == ref.OP_CLOSE:
                 cand(k, "sender/unexpected-close-frame", None, "a close frame was written during valid traffic")
                 break
-        if cands:
-            cands.sort(key=lambda c: (c[0], c[1]))
-            pos, _, clause, rec, what, detail = cands[0]
-            self.violation(d, clause, rec, what, dict(detail or {}, later_problems=[c[2] for c in cands[1:6]]))
-            self.sender_fault[d] = clause
+        if not cands:
+            return None
+        cands.sort(key=lambda c: (c[0], c[1]))
+        pos, order, clause, rec, what, detail, soft = cands[0]
+        return (pos, order, clause, rec, what, dict(detail or {}, later_problems=[c[2] for c in cands[1:6]]), soft)
 
     def _compare_delivery(self, d, sent, got):
         R = self.R
@@ -1001,24 +1119,25 @@ class CaseRun:
                     clause = "altered"
                 else:
                     clause = "phantom"
-                self.violation(d, clause, rec, "delivery #%d (%s, %d octets, sha %s) matches no sent message; %s" % (
+                self.violation(d, "delivery/" + clause, rec, "delivery #%d (%s, %d octets, sha %s) matches no sent message; %s" % (
                     j, "binary" if k[0] else "text", k[2], k[1],
-                    ("its tag belongs to sent #%d (%s, %d octets, sha %s)" % (rec["idx"], "binary" if rec["binary"] else "text",
-                                                                               rec["len"], rec["sha"])) if rec else "no tag"),
+                    ("%s sent #%d (%s, %d octets, sha %s)" % ("no readable tag; at this position the application" if tagless
+                                                               else "its tag belongs to", rec["idx"],
+                                                               "binary" if rec["binary"] else "text", rec["len"], rec["sha"])) if rec else "no tag"),
                     {"got_head": got[j][0][:48].hex(), "sent_head": rec["payload"][:48].hex() if rec else None})
                 return
         for j, k in enumerate(gkeys):
             if gc[k] > sc.get(k, 0):
                 rec = next(r for r in sent if (r["binary"], r["sha"], r["len"]) == k)
-                self.violation(d, "duplicate", rec, "sent #%d delivered %d times (sent %d times)" % (rec["idx"], gc[k], sc[k]))
+                self.violation(d, "delivery/duplicate", rec, "sent #%d delivered %d times (sent %d times)" % (rec["idx"], gc[k], sc[k]))
                 return
         for i, k in enumerate(skeys):
             if sc[k] > gc.get(k, 0):
-                self.violation(d, "missing", sent[i], "sent #%d (%s, %d octets, api %s) never delivered; %d of %d messages arrived" % (
+                self.violation(d, "delivery/missing", sent[i], "sent #%d (%s, %d octets, api %s) never delivered; %d of %d messages arrived" % (
                     sent[i]["idx"], "binary" if k[0] else "text", k[2], sent[i]["api"], len(gkeys), len(skeys)))
                 return
         i = next(i for i, (a, b) in enumerate(zip(skeys, gkeys)) if a != b)
-        self.violation(d, "reordered", sent[i], "same messages, different order from position %d on" % i)
+        self.violation(d, "delivery/reordered", sent[i], "same messages, different order from position %d on" % i)
 
     # -- whole case ---------------------------------------------------------------------------
     def run(self):
@@ -1027,17 +1146,21 @@ class CaseRun:
         try:
             self.setup()
             ok = self.handshake()
-            if not ok:
-                from vf.ws import app_events
-                self.violation("-", "open-failed", None, "opening handshake between compatible endpoints failed: mask=%s pmce=%s escaped=%r client=%r server=%r" % (
-                    self.cfg["mask"], self.cfg["pmce"], self.ws.world.escaped,
-                    [e[1:] for e in app_events(self.client.ep)][-2:], [e[1:] for e in app_events(self.server.ep)][-2:]))
-            else:
+            both_opened = all(sd.proto is not None for sd in self.sides)      # onOpen seen on both ends
+            if ok:
                 if self.kind == "cuts":
                     self.drive_cuts()
                 else:
                     self.drive()
+            if both_opened:
+                # also when a connection died right after onOpen: what the onOpen handlers sent is judged
+                # like any other traffic (sender fault, else 'not-open-at-end' with the closing side's reason)
                 self.judge()
+            else:
+                from vf.ws import app_events
+                self.violation("-", "open-failed", None, "opening handshake between compatible endpoints failed: mask=%s pmce=%s escaped=%r client=%r server=%r" % (
+                    self.cfg["mask"], self.cfg["pmce"], self.ws.world.escaped,
+                    [e[1:] for e in app_events(self.client.ep)][-2:], [e[1:] for e in app_events(self.server.ep)][-2:]))
         finally:
             ws = getattr(self, "ws", None)
             if ws is not None and hasattr(ws.world, "close"):
@@ -1048,7 +1171,7 @@ class CaseRun:
     def plan_summary(self):
         out = {}
         for side in self.sides:
-            out[side.direction] = [(r["api"], r["len"], "b" if r["binary"] else "t", r["qual"]) for r in side.sent]
+            out[side.direction] = [(r["api"], r["len"], "b" if r["binary"] else "t", r["feat"], "onopen" if r["onopen"] else "") for r in side.sent]
         return out
 
     def report(self):
@@ -1167,11 +1290,9 @@ def run_shard(params, R):
     _startup(R, params)
     tier, seed, part, parts = params["tier"], params["seed"], params["part"], params["parts"]
     fw = params["fw"]
-    budget = params.get("budget", 1.0)
     base = "%d/%s/%d/%s" % (seed, fw, part, "n" if params.get("nvx", True) else "p")
     rng = random.Random("c01-shard/" + base)
     t0 = time.time()
-    wall_cap = 45.0 * budget if tier == "quick" else 52.0 * budget     # a stop for the GENERATOR only, never a verdict
     n = 0
 
     def S():
@@ -1206,19 +1327,25 @@ def run_shard(params, R):
             run_case({"kind": "pair", "seed": S(), "tier": tier,
                       "force": {"length": L, "api": "msg", "dir": d,
                                 "cfg": {"autofrag": {role: max(1, L + fs_off), ("server" if role == "client" else "client"): 0}}}}, R)
+    phase = {"grid": round(time.time() - t0, 1)}
+    thorough = tier == "thorough"
+    mini = bool(params.get("mini"))
     # 2. glue: first frames in the segment of the opening handshake response
-    n_glue = int((14 if tier == "quick" else 120) * budget) + 1
-    for i in range(n_glue):
+    t1 = time.time()
+    for i in range(100 if thorough else (6 if mini else 15)):
         for glue in ("one", "nodrain", str(rng.choice([0, 1, 2, 3, 5, 6, 7, 9, 13]))):
             run_case({"kind": "glue", "seed": S(), "tier": tier, "glue": glue,
                       "n_msgs": rng.choice([2, 3, 5, 8])}, R)
+    phase["glue"] = round(time.time() - t1, 1)
     # 3. early data at the server
-    for i in range(int((10 if tier == "quick" else 60) * budget) + 1):
+    t1 = time.time()
+    for i in range(100 if thorough else (4 if mini else 11)):
         for glue in ("one", "1", "2", "5", "6", "7"):
             run_case({"kind": "early", "seed": S(), "glue": glue}, R)
-    # 4. every cut position of short streams (pairs of cuts in thorough)
-    n_base = int((4 if tier == "quick" else 10) * budget) + 1
-    for i in range(n_base):
+    phase["early"] = round(time.time() - t1, 1)
+    # 4. every cut position of short streams (every pair of cut positions for some of them in thorough)
+    t1 = time.time()
+    for i in range(14 if thorough else (2 if mini else 5)):
         cs = S()
         probe = CaseRun({"kind": "cuts", "seed": cs, "tier": tier}, R).run()
         lens = getattr(probe, "stream_len", {})
@@ -1229,22 +1356,25 @@ def run_shard(params, R):
             for c in range(1, L):
                 run_case({"kind": "cuts", "seed": cs, "tier": tier, "cut": [d, c]}, R)
             R.count("streams_cut_exhaustively")
-            if tier == "thorough" and i < 4 * budget:
+            if thorough and i < 4:
                 for c1 in range(1, L):
                     for c2 in range(c1 + 1, L):
                         run_case({"kind": "cuts", "seed": cs, "tier": tier, "cut": [d, c1, c2]}, R)
                 R.count("streams_cut_pairs_exhaustively")
-    # 5. random cases until the generator's budget is used
-    n_rand = int((900 if tier == "quick" else 12000) * budget)
+    phase["cuts"] = round(time.time() - t1, 1)
+    # 5. random cases
+    t1 = time.time()
+    # fixed amounts of work, not wall time: the same seed runs the same cases on a loaded machine too
+    n_rand = 170 if not thorough else 1400
     for i in range(n_rand):
-        if time.time() - t0 > wall_cap:
-            R.note("generator_stopped_by_budget_after", i)
-            break
         kind = "glue" if rng.random() < 0.12 else "pair"
         case = {"kind": kind, "seed": S(), "tier": tier}
         if kind == "glue":
             case["glue"] = rng.choice(["one", "one", "nodrain", str(rng.randint(0, 20))])
         run_case(case, R)
+        R.count("random_cases")
+    phase["random"] = round(time.time() - t1, 1)
+    R.note("phase_wall_s_first_shard", phase)
     for k in DECIDING:
         R.count(k, 0)
 
@@ -1257,13 +1387,16 @@ def replay(case, R):
 MANIFEST_ENTRY = {
     "text": ("The library's client and server (Twisted and asyncio adapters, NVX and pure-Python builds) exchange tagged "
              "messages through a harness-owned byte pipe: every application send (message, frame, streaming, prepared and "
-             "raw-frame API; fragment sizes and payload lengths on all length-encoding borders; masking, applyMask, UTF-8 "
-             "validation and permessage-deflate options; sync/chopped writes) is compared with (a) the sender's wire, parsed, "
-             "unmasked, defragmented and inflated by an independent RFC 6455/7692 reference that also enforces the frame "
-             "rules (minimal lengths, continuation discipline, control frames, mask bit, RSV1), and (b) the receiver's "
-             "onMessage log, under whole/bytewise/random/frame-border segmentations, interleaved directions and queued-write "
-             "timers, frames glued to the handshake, and every cut position of short streams. Held = no mismatch, no escaped "
-             "exception, both ends OPEN on the executions listed in the evidence; not a proof."),
-    "note": "trusts vf/rfc6455_ref.py, vf/c01_wire.py (self-checked against the RFC examples and each other), zlib; payloads > 4 MiB, TLS, real sockets, mixed-framework pairs and pings into half-streamed frames are not driven",
+             "raw-frame API used as documented; fragment sizes and payload lengths on all length-encoding borders; masking, "
+             "applyMask, UTF-8 validation and permessage-deflate options with their documented semantics; sync/chopped "
+             "writes) is compared with (a) the sender's wire, parsed, unmasked, defragmented and inflated (negotiated window "
+             "and context take-over) by an independent RFC 6455/7692 reference that also enforces the frame rules (minimal "
+             "lengths, continuation discipline, control frames, mask bit and key, RSV1), and (b) the receiver's onMessage "
+             "log, under whole/bytewise/random/frame-border segmentations, interleaved directions and queued-write timers, "
+             "frames glued to the handshake, and every cut position of short streams. Held = no mismatch, no escaped "
+             "exception, both ends OPEN on the executions listed in the evidence, apart from the four sender-side defects in "
+             "known_findings/C01.json (streaming API under permessage-deflate, prepared messages with applyMask=False, "
+             "sendFrame with an explicit mask key, beginMessage/endMessage without a frame); not a proof."),
+    "note": "trusts vf/rfc6455_ref.py, vf/c01_wire.py (self-checked against the RFC examples and each other), zlib; payloads > 4 MiB, TLS, real sockets, mixed-framework pairs and pings into half-streamed frames are not driven; streaming-API grey zones (zero-length frame completion, sign of the over-long-chunk return value) are accepted either way",
     "technique": "runtime monitoring: tagged-history comparison (send log = reference-parsed wire = receive log) over generated and exhaustively cut executions on a virtual clock",
 }
